@@ -106,9 +106,10 @@ F runIntegrate(const std::vector<F> &w, const Spline<F, OA> &a, const Spline<F, 
 
 void fpInt(const json &in, json &out) {
   dropHints(out);
+  const bool foreign = in.at("op") == "FpIntX";   // b lives on its own, logically different grid
   const json &ja = in.at("a"), &jb = in.at("b");
   const size_t n = in.at("n").get<size_t>();
-  const bool exact = in.at("exact").get<int>() != 0;
+  const bool exact = in.value("exact", 0) != 0;
   // float is left out: boost's float tables are the double tables rounded
   {
     json dummy;
@@ -121,8 +122,9 @@ void fpInt(const json &in, json &out) {
       withOrder(jb.at("o").get<size_t>(), [&](auto OB) {
         constexpr size_t oa = decltype(OA)::value, ob = decltype(OB)::value;
         if constexpr (oa <= 3 && ob <= 3) {
+          const Grid<F> gb = mkGrid<F>(jb.at("g"));
           const Spline<F, oa> a = mkSpline<F, oa>(ja, g);
-          const Spline<F, ob> b = mkSpline<F, ob>(jb, g);
+          const Spline<F, ob> b = mkSpline<F, ob>(jb, foreign ? gb : g);
           F v = 0;
           switch (n) {
             case 1: v = runIntegrate<F, 1>(w, a, b); break;
@@ -133,6 +135,7 @@ void fpInt(const json &in, json &out) {
             case 6: v = runIntegrate<F, 6>(w, a, b); break;
             default: throw std::runtime_error("harness: quadrature size");
           }
+          if (foreign) return;  // reaching this point is the failure: the call should have thrown
           const Q S = ratQ(in.at("S"));
           if (exact) {
             acc.cmp(v, ratQ(in.at("E")), S, "int");
@@ -302,7 +305,7 @@ void fpGridNew(const json &in, json &out) {
   gridSpecialT<long double>(in, out, "l");
 }
 
-Reg r1("FpGen", fpGen), r2("FpEval", fpEval), r3("FpBin", fpBin), r4("FpInt", fpInt), r5("FpApply", fpApply),
+Reg r1("FpGen", fpGen), r2("FpEval", fpEval), r3("FpBin", fpBin), r4("FpInt", fpInt), r4x("FpIntX", fpInt), r5("FpApply", fpApply),
     r6("FpBF", fpBF), r7("FpGridNew", fpGridNew), r8("FpInterp", fpInterp);
 }  // namespace
 }  // namespace verif
